@@ -6,7 +6,8 @@
 (* event heap, so that same-instant events are ordered by creation index as in *)
 (* core/event.py (`(time, _sort_index)`).                                      *)
 (*                                                                             *)
-(* One action (branch of Step) per handler:                                    *)
+(* The machine state is one record m; StepF(s, m) pops the earliest event and   *)
+(* runs its handler.  One branch of StepF per handler:                          *)
 (*   hop  harness forwarder entity: re-emits the item as a NEW event, same time *)
 (*   off  QueuedResource.handle_event -> Queue._handle_enqueue (was_empty =>    *)
 (*        QueueNotifyEvent); first event at a ShiftedServer also schedules the  *)
@@ -32,230 +33,234 @@
 (*  "shifted_ignores_policy" ShiftedServer.__init__ says `policy or FIFOQueue()`: *)
 (*        a policy object is falsy while empty, so the configured policy (order   *)
 (*        and capacity) is replaced by an unbounded FIFO                          *)
-EXTENDS QueueContract, TLC
+EXTENDS Policies, TLC
 
-CONSTANTS Dev,
+CONSTANTS Dev,      \* (PDev of Policies.tla stays {} here)
           KeepLog,  \* FALSE: the ghost log stays empty (pure model checking)
-          Kinds, Limits, Caps, Pols, NItems, Ticks, Hops, Svcs, Prios, ShiftTs, ShiftLs
+          Kinds, Limits, Caps, Pols, NItems, Ticks, Hops, Svcs, Prios, Flows, ShiftTs, ShiftLs
 
-VARIABLES sc,       \* scenario [wk, lim, cap, pol, arr : Seq([t,h,s,p]), sh : [t,l]]
-          heap,     \* set of events [t, idx, k, i, h, d]
-          ctr,      \* next sort index
-          clock,
-          pq,       \* ids held by the policy, acceptance order
-          active,   \* concurrency_model.active / _active
-          limit,    \* concurrency limit / _current_capacity
-          inited,   \* ShiftedServer._initialized
-          status,   \* ghost: item -> Statuses
-          eidx,     \* sort index of the event object that carried item i into the component
-          lpop,     \* ghost: limit in force when item i was dequeued
-          log,      \* ghost: observable records <<op, item, t, active, limit, depth>>
-          cnt,      \* [accepted, dropped, completed, rejected] as the components count them
-          over,     \* ghost: some start broke clause (b)
-          illegal,  \* ghost: some item made a move outside its life cycle (clause (a))
-          misorder, \* ghost: some item left the queue out of the configured policy's order (d)
-          fin       \* the run is over (no primary event left); marks terminal states in dumps
-vars == <<sc, heap, ctr, clock, pq, active, limit, inited, status, eidx, lpop, log, cnt, over, illegal, misorder, fin>>
+VARIABLES sc,       \* scenario [wk, lim, prm (policy parameters, see Policies.tla), W (flow weights),
+                    \*           arr : Seq([t,h,s,p,f]), sh : [t,l] (one shift change, ShiftedServer),
+                    \*           dyn : Seq([t,l]) (set_limit calls on a Server's DynamicConcurrency),
+                    \*           rt (1: the forwarders re-emit the same event object)]
+          m         \* machine state, a record:
+                    \*   heap     set of events [t, idx, k, i, h, d]
+                    \*   ctr      next sort index            clock
+                    \*   ps       state of the installed policy (Policies.tla); ps.h = ids held, acceptance order
+                    \*   active   concurrency_model.active / _active
+                    \*   limit    concurrency limit / _current_capacity
+                    \*   inited   ShiftedServer._initialized
+                    \*   eidx     sort index of the event object that carried item i into the component
+                    \*   cnt      [accepted, dropped, completed, rejected] as the components count them
+                    \*  ghosts:
+                    \*   status   item -> Statuses         lpop  limit in force when item i was dequeued
+                    \*   log      observable records <<op, item, t, active, limit, depth>>
+                    \*   over     some start broke clause (b)
+                    \*   illegal  some item made a move outside its life cycle (clause (a))
+                    \*   misorder some item left the queue out of the configured policy's order (d)
+                    \*   fin      the run is over (no primary event left); marks terminal states in dumps
+vars == <<sc, m>>
 
 Has(d) == d \in Dev
-N == Len(sc.arr)
 Ev(t, idx, k, i, h, d) == [t |-> t, idx |-> idx, k |-> k, i |-> i, h |-> h, d |-> d]
 Less(a, b) == a.t < b.t \/ (a.t = b.t /\ a.idx < b.idx)
-MinEv == CHOOSE e \in heap : \A o \in heap : o = e \/ Less(e, o)
-RunnableH(h) == { e \in h : ~e.d } # {}
-Runnable == RunnableH(heap)    \* auto-termination: only daemon events left => stop
-InS == { i \in 1..N : status[i] = "inservice" }
+MinOf(hp) == CHOOSE e \in hp : \A o \in hp : o = e \/ Less(e, o)
+RunnableH(hp) == { e \in hp : ~e.d } # {}     \* auto-termination: only daemon events left => stop
+InSOf(mm) == { i \in DOMAIN mm.status : mm.status[i] = "inservice" }
 
-ArrRec == [t : Ticks, h : Hops, s : Svcs, p : Prios]
+ArrRec == [t : Ticks, h : Hops, s : Svcs, p : Prios, f : Flows]
+NFl == Cardinality(Flows)
+PrmOf(k, c) == [kind |-> k, cap |-> c, pfc |-> Inf, mxf |-> Inf, thr |-> Inf, bm |-> 0]
 ScenarioSet ==
-    { s \in [wk : Kinds, lim : Limits, cap : Caps, pol : Pols,
-             arr : UNION { [1..n -> ArrRec] : n \in NItems }, sh : [t : ShiftTs, l : ShiftLs]] :
+    { s \in [wk : Kinds, lim : Limits, prm : { PrmOf(k, c) : k \in Pols, c \in Caps }, W : {[f \in 1..NFl |-> 1]},
+             arr : UNION { [1..n -> ArrRec] : n \in NItems }, sh : [t : ShiftTs, l : ShiftLs],
+             dyn : {<<>>}, rt : {0}] :
         /\ s.wk = "server" => s.sh = [t |-> 0, l |-> 0] /\ s.lim >= 1
         /\ s.wk = "shifted" => (\A j \in 1..Len(s.arr) : s.arr[j].s = s.arr[1].s) /\ (s.sh.t = 0 => s.sh.l = 0)
-        /\ s.pol # "prio" => \A j \in 1..Len(s.arr) : s.arr[j].p = 0 }
+        /\ s.prm.kind \notin {"prio", "deadline"} => \A j \in 1..Len(s.arr) : s.arr[j].p = 0
+        /\ s.prm.kind \notin {"fair", "wfair"} => \A j \in 1..Len(s.arr) : s.arr[j].f = 1 }
 
-\* machine start for a given scenario: every arrival event is created up front, in item order
+\* machine start for a given scenario: every arrival event is created up front, in item order, then the
+\* set_limit events (daemon)
 Start(s) ==
-    [heap |-> { Ev(s.arr[j].t, j - 1, IF s.arr[j].h > 0 THEN "hop" ELSE "off", j, s.arr[j].h, FALSE)
-                : j \in 1..Len(s.arr) },
-     ctr |-> Len(s.arr), limit |-> s.lim,
-     status |-> [j \in 1..Len(s.arr) |-> "new"],
-     zeros |-> [j \in 1..Len(s.arr) |-> 0],
-     cnt |-> [accepted |-> 0, dropped |-> 0, completed |-> 0, rejected |-> 0]]
-InitFor(s) ==
-    /\ sc = s
-    /\ heap = Start(s).heap /\ ctr = Start(s).ctr /\ clock = 0 /\ pq = <<>> /\ active = 0
-    /\ limit = Start(s).limit /\ inited = FALSE
-    /\ status = Start(s).status /\ eidx = Start(s).zeros /\ lpop = Start(s).zeros
-    /\ log = <<>> /\ cnt = Start(s).cnt /\ over = FALSE /\ illegal = FALSE /\ misorder = FALSE
-    /\ fin = ~RunnableH(Start(s).heap)
-\* the same, as the post-state of an action (used by QueueTrace to load the next scenario)
-LoadFor(s) ==
-    /\ sc' = s
-    /\ heap' = Start(s).heap /\ ctr' = Start(s).ctr /\ clock' = 0 /\ pq' = <<>> /\ active' = 0
-    /\ limit' = Start(s).limit /\ inited' = FALSE
-    /\ status' = Start(s).status /\ eidx' = Start(s).zeros /\ lpop' = Start(s).zeros
-    /\ log' = <<>> /\ cnt' = Start(s).cnt /\ over' = FALSE /\ illegal' = FALSE /\ misorder' = FALSE
-    /\ fin' = ~RunnableH(Start(s).heap)
+    LET n == Len(s.arr)
+        hp == { Ev(s.arr[j].t, j - 1, IF s.arr[j].h > 0 THEN "hop" ELSE "off", j, s.arr[j].h, FALSE) : j \in 1..n }
+              \cup { Ev(s.dyn[k].t, n + k - 1, "dyn", 0, k, TRUE) : k \in 1..Len(s.dyn) }
+        zeros == [j \in 1..n |-> 0]
+    IN [heap |-> hp, ctr |-> n + Len(s.dyn), clock |-> 0, ps |-> PInit(Len(s.W)), active |-> 0, limit |-> s.lim,
+        inited |-> FALSE, status |-> [j \in 1..n |-> "new"], eidx |-> zeros, lpop |-> zeros,
+        log |-> <<>>, cnt |-> [accepted |-> 0, dropped |-> 0, completed |-> 0, rejected |-> 0],
+        over |-> FALSE, illegal |-> FALSE, misorder |-> FALSE, fin |-> ~RunnableH(hp)]
 
-Init == \E s \in ScenarioSet : InitFor(s)
+Init == \E s \in ScenarioSet : sc = s /\ m = Start(s)
 
 \* polls, deliveries and work events of this pipeline that are still in the heap
 Inflight(hp) == Cardinality({ e \in hp : e.k \in {"pol", "dlv", "wrk"} })
 CanPoll(act, lim, hp) ==
     IF Has("poll_ignores_inflight") THEN act < lim ELSE act + Inflight(hp) < lim
 
-Discarded == sc.wk = "shifted" /\ Has("shifted_ignores_policy")
-EffPol == IF Discarded THEN "fifo" ELSE sc.pol       \* the policy object actually installed
-EffCap == IF Discarded THEN Inf ELSE sc.cap
-PrioOf == [j \in 1..N |-> sc.arr[j].p]
-PopChoice(q) ==
-    CASE EffPol = "fifo" -> q[1]
-      [] EffPol = "lifo" -> q[Len(q)]
-      [] EffPol = "prio" ->
-            q[CHOOSE k \in 1..Len(q) : \A j \in 1..Len(q) :
-                 sc.arr[q[k]].p < sc.arr[q[j]].p \/ (sc.arr[q[k]].p = sc.arr[q[j]].p /\ k <= j)]
+Discarded(s) == s.wk = "shifted" /\ Has("shifted_ignores_policy")
+\* parameters of the policy object actually installed
+EffPrm(s) == IF Discarded(s) THEN [s.prm EXCEPT !.kind = "fifo", !.cap = Inf, !.thr = Inf] ELSE s.prm
+POf(s) == [j \in 1..Len(s.arr) |-> s.arr[j].p]
+FOf(s) == [j \in 1..Len(s.arr) |-> s.arr[j].f]
+Depth(mm) == Len(mm.ps.h)
 
-Logged(op, i, t, a, l, d) == IF KeepLog THEN Append(log, <<op, i, t, a, l, d>>) ELSE log
+Logged(mm, op, i, t, a, l, d) == IF KeepLog THEN Append(mm.log, <<op, i, t, a, l, d>>) ELSE mm.log
 Poll(t, idx) == Ev(t, idx, "pol", 0, 0, FALSE)
-Move(i, to) == /\ status' = [status EXCEPT ![i] = to]
-               /\ illegal' = (illegal \/ ~LegalMove(status[i], to))
+\* life-cycle move of item i (ghost)
+Moved(mm, i, to) == [mm EXCEPT !.status[i] = to, !.illegal = @ \/ ~LegalMove(mm.status[i], to)]
 
-Hop(e, hp) ==
-    /\ heap' = hp \cup {Ev(e.t, ctr, IF e.h > 1 THEN "hop" ELSE "off", e.i, e.h - 1, FALSE)}
-    /\ ctr' = ctr + 1
-    /\ UNCHANGED <<pq, active, limit, inited, status, eidx, lpop, log, cnt, over, illegal, misorder>>
+\* forwarder: a new event (next sort index), or with rt = 1 the same event object (index kept)
+HopF(s, mm, e, hp) ==
+    IF s.rt = 1
+    THEN [mm EXCEPT !.heap = hp \cup {Ev(e.t, e.idx, IF e.h > 1 THEN "hop" ELSE "off", e.i, e.h - 1, FALSE)}]
+    ELSE [mm EXCEPT !.heap = hp \cup {Ev(e.t, mm.ctr, IF e.h > 1 THEN "hop" ELSE "off", e.i, e.h - 1, FALSE)},
+                    !.ctr = @ + 1]
 
-Off(e, hp) ==
-    LET first == sc.wk = "shifted" /\ ~inited
-        mkShift == first /\ sc.sh.t > 0 /\ e.t < sc.sh.t
-        c0 == IF mkShift THEN ctr + 1 ELSE ctr
-        shiftEv == IF mkShift THEN {Ev(sc.sh.t, ctr, "shf", 0, 0, TRUE)} ELSE {}
-        wasEmpty == pq = <<>>
-        full == Len(pq) >= EffCap
-    IN /\ inited' = (inited \/ first)
-       /\ eidx' = [eidx EXCEPT ![e.i] = e.idx]
-       /\ IF full
-          THEN /\ pq' = pq
-               /\ Move(e.i, "rejected")
-               /\ cnt' = [cnt EXCEPT !.dropped = @ + 1]
-               /\ log' = Logged("rej", e.i, e.t, active, limit, Len(pq))
-               /\ heap' = hp \cup shiftEv /\ ctr' = c0
-          ELSE /\ pq' = Append(pq, e.i)
-               /\ Move(e.i, "waiting")
-               /\ cnt' = [cnt EXCEPT !.accepted = @ + 1]
-               /\ log' = Logged("psh", e.i, e.t, active, limit, Len(pq) + 1)
-               /\ heap' = hp \cup shiftEv \cup (IF wasEmpty THEN {Ev(e.t, c0, "ntf", 0, 0, FALSE)} ELSE {})
-               /\ ctr' = IF wasEmpty THEN c0 + 1 ELSE c0
-       /\ UNCHANGED <<active, limit, lpop, over, misorder>>
+OffF(s, mm, e, hp) ==
+    LET first == s.wk = "shifted" /\ ~mm.inited
+        mkShift == first /\ s.sh.t > 0 /\ e.t < s.sh.t
+        c0 == IF mkShift THEN mm.ctr + 1 ELSE mm.ctr
+        shiftEv == IF mkShift THEN {Ev(s.sh.t, mm.ctr, "shf", 0, 0, TRUE)} ELSE {}
+        wasEmpty == mm.ps.h = <<>>
+        r == PPush(EffPrm(s), s.W, mm.ps, e.i, FOf(s), FALSE)
+        m1 == [mm EXCEPT !.inited = @ \/ first, !.eidx[e.i] = e.idx, !.ps = r.st]
+    IN IF ~r.acc
+       THEN [Moved(m1, e.i, "rejected") EXCEPT
+                !.cnt.dropped = @ + 1,
+                !.log = Logged(mm, "rej", e.i, e.t, mm.active, mm.limit, Depth(mm)),
+                !.heap = hp \cup shiftEv, !.ctr = c0]
+       ELSE [Moved(m1, e.i, "waiting") EXCEPT
+                !.cnt.accepted = @ + 1,
+                !.log = Logged(mm, "psh", e.i, e.t, mm.active, mm.limit, Depth(mm) + 1),
+                !.heap = hp \cup shiftEv \cup (IF wasEmpty THEN {Ev(e.t, c0, "ntf", 0, 0, FALSE)} ELSE {}),
+                !.ctr = IF wasEmpty THEN c0 + 1 ELSE c0]
 
-Ntf(e, hp) ==
-    /\ IF CanPoll(active, limit, hp)
-       THEN heap' = hp \cup {Poll(e.t, ctr)} /\ ctr' = ctr + 1
-       ELSE heap' = hp /\ ctr' = ctr
-    /\ UNCHANGED <<pq, active, limit, inited, status, eidx, lpop, log, cnt, over, illegal, misorder>>
+NtfF(s, mm, e, hp) ==
+    IF CanPoll(mm.active, mm.limit, hp)
+    THEN [mm EXCEPT !.heap = hp \cup {Poll(e.t, mm.ctr)}, !.ctr = @ + 1]
+    ELSE [mm EXCEPT !.heap = hp]
 
-Pol(e, hp) ==
-    /\ IF pq = <<>>
-       THEN /\ log' = Logged("pop0", 0, e.t, active, limit, 0)
-            /\ heap' = hp /\ ctr' = ctr
-            /\ UNCHANGED <<pq, status, lpop, illegal, misorder>>
-       ELSE LET x == PopChoice(pq) IN
-            /\ pq' = Remove(pq, x)
-            /\ misorder' = (misorder \/ ~LeavesInOrder(sc.pol, pq, x, SeqSet(pq) \ {x}, PrioOf, PrioOf))
-            /\ Move(x, "transit")
-            /\ lpop' = [lpop EXCEPT ![x] = limit]
-            /\ log' = Logged("pop", x, e.t, active, limit, Len(pq) - 1)
-            /\ heap' = hp \cup {Ev(e.t, ctr, "dlv", x, 0, FALSE)} /\ ctr' = ctr + 1
-    /\ UNCHANGED <<active, limit, inited, eidx, cnt, over>>
+\* policy.pop(): may discard expired entries (DeadlineQueue), which the policy counts itself (ps.x)
+PolF(s, mm, e, hp) ==
+    LET r == PPop(EffPrm(s), s.W, mm.ps, POf(s), FOf(s), e.t)
+        x == r.ret
+        st1 == [j \in DOMAIN mm.status |-> IF j \in r.gone THEN "rejected" ELSE mm.status[j]]
+        m1 == [mm EXCEPT !.ps = r.st, !.status = st1]
+    IN IF x = 0
+       THEN [m1 EXCEPT !.log = Logged(mm, "pop0", 0, e.t, mm.active, mm.limit, Len(r.st.h)), !.heap = hp]
+       ELSE [Moved(m1, x, "transit") EXCEPT
+                !.misorder = @ \/ ~LeavesInOrder(s.prm.kind, mm.ps.h, x, SeqSet(r.st.h), POf(s), FOf(s)),
+                !.lpop[x] = mm.limit,
+                !.log = Logged(mm, "pop", x, e.t, mm.active, mm.limit, Len(r.st.h)),
+                !.heap = hp \cup {Ev(e.t, mm.ctr, "dlv", x, 0, FALSE)}, !.ctr = @ + 1]
 
 \* the payload event object is re-used: it keeps the sort index it was created with
-Dlv(e, hp) ==
-    /\ heap' = hp \cup {Ev(e.t, eidx[e.i], "wrk", e.i, 0, FALSE)}
-    /\ UNCHANGED <<ctr, pq, active, limit, inited, status, eidx, lpop, log, cnt, over, illegal, misorder>>
+DlvF(s, mm, e, hp) ==
+    [mm EXCEPT !.heap = hp \cup {Ev(e.t, mm.eidx[e.i], "wrk", e.i, 0, FALSE)}]
 
-Wrk(e, hp) ==
-    IF sc.wk = "server" /\ active >= limit
+WrkF(s, mm, e, hp) ==
+    IF s.wk = "server" /\ mm.active >= mm.limit
     THEN \* acquire() failed after the dequeue: counted in requests_rejected, item discarded;
          \* the completion hook finds no capacity
-         /\ Move(e.i, "rejected")
-         /\ cnt' = [cnt EXCEPT !.rejected = @ + 1]
-         /\ log' = Logged("rjq", e.i, e.t, active, limit, Len(pq))
-         /\ heap' = hp /\ ctr' = ctr + 1
-         /\ UNCHANGED <<pq, active, limit, inited, eidx, lpop, over, misorder>>
-    ELSE LET repoll == ~Has("poll_once_per_notify") /\ pq # <<>> /\ CanPoll(active + 1, limit, hp) IN
-         /\ active' = active + 1
-         /\ Move(e.i, "inservice")
-         /\ over' = (over \/ ~StartOK(Cardinality(InS) + 1, limit, lpop[e.i]))
-         /\ log' = Logged("sta", e.i, e.t, active + 1, limit, Len(pq))
-         /\ heap' = hp \cup {Ev(e.t + sc.arr[e.i].s, ctr, "res", e.i, 0, FALSE)}
-                       \cup (IF repoll THEN {Poll(e.t, ctr + 1)} ELSE {})
-         /\ ctr' = ctr + 2
-         /\ UNCHANGED <<pq, limit, inited, eidx, lpop, cnt, misorder>>
+         [Moved(mm, e.i, "rejected") EXCEPT
+             !.cnt.rejected = @ + 1,
+             !.log = Logged(mm, "rjq", e.i, e.t, mm.active, mm.limit, Depth(mm)),
+             !.heap = hp, !.ctr = @ + 1]
+    ELSE LET repoll == ~Has("poll_once_per_notify") /\ mm.ps.h # <<>> /\ CanPoll(mm.active + 1, mm.limit, hp) IN
+         [Moved(mm, e.i, "inservice") EXCEPT
+             !.active = @ + 1,
+             !.over = @ \/ ~StartOK(Cardinality(InSOf(mm)) + 1, mm.limit, mm.lpop[e.i]),
+             !.log = Logged(mm, "sta", e.i, e.t, mm.active + 1, mm.limit, Depth(mm)),
+             !.heap = hp \cup {Ev(e.t + s.arr[e.i].s, mm.ctr, "res", e.i, 0, FALSE)}
+                         \cup (IF repoll THEN {Poll(e.t, mm.ctr + 1)} ELSE {}),
+             !.ctr = @ + 2]
 
-Res(e, hp) ==
-    /\ active' = active - 1
-    /\ Move(e.i, "done")
-    /\ cnt' = [cnt EXCEPT !.completed = @ + 1]
-    /\ log' = Logged("fin", e.i, e.t, active - 1, limit, Len(pq))
-    /\ IF CanPoll(active - 1, limit, hp)
-       THEN heap' = hp \cup {Poll(e.t, ctr)} /\ ctr' = ctr + 1
-       ELSE heap' = hp /\ ctr' = ctr
-    /\ UNCHANGED <<pq, limit, inited, eidx, lpop, over, misorder>>
+ResF(s, mm, e, hp) ==
+    LET poll == CanPoll(mm.active - 1, mm.limit, hp) IN
+    [Moved(mm, e.i, "done") EXCEPT
+        !.active = @ - 1,
+        !.cnt.completed = @ + 1,
+        !.log = Logged(mm, "fin", e.i, e.t, mm.active - 1, mm.limit, Depth(mm)),
+        !.heap = IF poll THEN hp \cup {Poll(e.t, mm.ctr)} ELSE hp,
+        !.ctr = IF poll THEN @ + 1 ELSE @]
 
-Shf(e, hp) ==
-    LET wake == ~Has("capacity_raise_no_wake") /\ pq # <<>> /\ CanPoll(active, sc.sh.l, hp) IN
-    /\ limit' = sc.sh.l
-    /\ log' = Logged("lim", 0, e.t, active, sc.sh.l, Len(pq))
-    /\ IF wake THEN heap' = hp \cup {Poll(e.t, ctr)} /\ ctr' = ctr + 1
-       ELSE heap' = hp /\ ctr' = ctr
-    /\ UNCHANGED <<pq, active, inited, status, eidx, lpop, cnt, over, illegal, misorder>>
+ShfF(s, mm, e, hp) ==
+    LET wake == ~Has("capacity_raise_no_wake") /\ mm.ps.h # <<>> /\ CanPoll(mm.active, s.sh.l, hp) IN
+    [mm EXCEPT
+        !.limit = s.sh.l,
+        !.log = IF s.sh.l # mm.limit THEN Logged(mm, "lim", 0, e.t, mm.active, s.sh.l, Depth(mm)) ELSE @,
+        !.heap = IF wake THEN hp \cup {Poll(e.t, mm.ctr)} ELSE hp,
+        !.ctr = IF wake THEN @ + 1 ELSE @]
 
-Step ==
-    /\ Runnable
-    /\ LET e == MinEv
-           hp == heap \ {e}
-       IN /\ clock' = e.t
-          /\ CASE e.k = "hop" -> Hop(e, hp)
-               [] e.k = "off" -> Off(e, hp)
-               [] e.k = "ntf" -> Ntf(e, hp)
-               [] e.k = "pol" -> Pol(e, hp)
-               [] e.k = "dlv" -> Dlv(e, hp)
-               [] e.k = "wrk" -> Wrk(e, hp)
-               [] e.k = "res" -> Res(e, hp)
-               [] e.k = "shf" -> Shf(e, hp)
-    /\ fin' = ~RunnableH(heap')
-    /\ UNCHANGED sc
+\* harness entity calling DynamicConcurrency.set_limit (Server); same wake-up question as a shift change
+DynF(s, mm, e, hp) ==
+    LET nl == s.dyn[e.h].l
+        wake == ~Has("capacity_raise_no_wake") /\ mm.ps.h # <<>> /\ CanPoll(mm.active, nl, hp) IN
+    [mm EXCEPT
+        !.limit = nl,
+        !.log = IF nl # mm.limit THEN Logged(mm, "lim", 0, e.t, mm.active, nl, Depth(mm)) ELSE @,
+        !.heap = IF wake THEN hp \cup {Poll(e.t, mm.ctr)} ELSE hp,
+        !.ctr = IF wake THEN @ + 1 ELSE @]
 
+\* pop the earliest event (time, then creation index) and run its handler
+StepF(s, mm) ==
+    LET e == MinOf(mm.heap)
+        hp == mm.heap \ {e}
+        m0 == [mm EXCEPT !.clock = e.t]
+        r == CASE e.k = "hop" -> HopF(s, m0, e, hp)
+               [] e.k = "off" -> OffF(s, m0, e, hp)
+               [] e.k = "ntf" -> NtfF(s, m0, e, hp)
+               [] e.k = "pol" -> PolF(s, m0, e, hp)
+               [] e.k = "dlv" -> DlvF(s, m0, e, hp)
+               [] e.k = "wrk" -> WrkF(s, m0, e, hp)
+               [] e.k = "res" -> ResF(s, m0, e, hp)
+               [] e.k = "shf" -> ShfF(s, m0, e, hp)
+               [] e.k = "dyn" -> DynF(s, m0, e, hp)
+    IN [r EXCEPT !.fin = ~RunnableH(r.heap)]
+
+\* the whole run in one evaluation (used by QueueTrace.tla)
+RECURSIVE RunAll(_, _)
+RunAll(s, mm) == IF RunnableH(mm.heap) THEN RunAll(s, StepF(s, mm)) ELSE mm
+
+Runnable == RunnableH(m.heap)
+Step == Runnable /\ m' = StepF(sc, m) /\ UNCHANGED sc
 Next == Step
 Spec == Init /\ [][Next]_vars
 FairSpec == Spec /\ WF_vars(Step)
 
 \* ---- contract (C08) on the model's observable state ---------------------------
-With(s) == { i \in 1..N : status[i] = s }
-Count(op, i) == Cardinality({ k \in 1..Len(log) : log[k][1] = op /\ log[k][2] = i })
+N == Len(sc.arr)
+InS == InSOf(m)
+With(st) == { i \in 1..N : m.status[i] = st }
+Count(op, i) == Cardinality({ k \in 1..Len(m.log) : m.log[k][1] = op /\ m.log[k][2] = i })
 
 \* (a) every offered item is in exactly one class, and the published counters agree with it
 InvPartition ==
-    /\ cnt.accepted + cnt.dropped = N - Cardinality(With("new"))
-    /\ SeqSet(pq) = With("waiting") /\ Len(pq) = Cardinality(With("waiting"))
-    /\ active = Cardinality(InS)
-    /\ cnt.completed = Cardinality(With("done"))
-    /\ Counted(Cardinality(With("rejected")), cnt.dropped + cnt.rejected)
-    /\ Cardinality(With("transit")) = Cardinality({ e \in heap : e.k \in {"dlv", "wrk"} })
-InvOnce == ~illegal /\ (KeepLog => \A i \in 1..N : Count("sta", i) <= 1 /\ Count("fin", i) <= 1 /\ Count("pop", i) <= 1)
+    /\ m.cnt.accepted + m.cnt.dropped = N - Cardinality(With("new"))
+    /\ SeqSet(m.ps.h) = With("waiting") /\ Len(m.ps.h) = Cardinality(With("waiting"))
+    /\ m.active = Cardinality(InS)
+    /\ m.cnt.completed = Cardinality(With("done"))
+    /\ Counted(Cardinality(With("rejected")), m.cnt.dropped + m.cnt.rejected + m.ps.x)
+    /\ Cardinality(With("transit")) = Cardinality({ e \in m.heap : e.k \in {"dlv", "wrk"} })
+InvOnce == ~m.illegal /\ (KeepLog => \A i \in 1..N : Count("sta", i) <= 1 /\ Count("fin", i) <= 1 /\ Count("pop", i) <= 1)
 \* (d) order of the configured policy, (e) its capacity
-InvOrder == ~misorder
-InvCapacity == CapacityOK(Len(pq), sc.cap)
+InvOrder == ~m.misorder
+InvCapacity == CapacityOK(Len(m.ps.h), sc.prm.cap)
 \* (b)
-InvLimit == ~over
+InvLimit == ~m.over
 \* (c) time is about to advance (or the run is over for good) => nobody waits next to a free slot
+\* (deadline policy: only entries still valid at the next instant count as waiting)
+ServableAt(t) == IF sc.prm.kind = "deadline"
+                 THEN Cardinality({ k \in 1..Len(m.ps.h) : sc.arr[m.ps.h[k]].p >= t }) ELSE Len(m.ps.h)
 InvNoIdleWait ==
-    (~Runnable \/ MinEv.t > clock) => ~IdleWait(Len(pq), Cardinality(InS), limit)
+    /\ (Runnable /\ MinOf(m.heap).t > m.clock) => ~IdleWait(ServableAt(MinOf(m.heap).t), Cardinality(InS), m.limit)
+    /\ ~Runnable => ~IdleWait(ServableAt(m.clock), Cardinality(InS), m.limit)
 \* nothing is lost: when the run is over every item is rejected, done, or still queued
-InvNoLoss == ~Runnable => \A i \in 1..N : status[i] \in {"rejected", "done", "waiting"}
+InvNoLoss == ~Runnable => \A i \in 1..N : m.status[i] \in {"rejected", "done", "waiting"}
 \* the Server never admits beyond its limit, whatever the driver does (as-code property)
-InvServerWithinLimit == sc.wk = "server" => active <= limit
+InvServerWithinLimit == sc.wk = "server" => m.active <= m.limit
 \* liveness form of "never strand work" (Server: the limit is constant and >= 1)
-Settles == <>[](\A i \in 1..N : status[i] \in {"rejected", "done"})
+Settles == <>[](\A i \in 1..N : m.status[i] \in {"rejected", "done"})
 =============================================================================
